@@ -1,7 +1,160 @@
 /-
-  C09 — property theorems (see DESIGN.md §5 C09).
+  C09 — struct ↔ control-paragraph codec (the schema interpreter of Model/Codec.lean):
+  paragraph algebra (`Set`, `Update`), which fields marshalling writes, totality,
+  the round trip at the paragraph level and through the text, pass-through of unknown
+  fields of an embedded Paragraph.
+  Property theorems only; lemmas live in GoDebian/Lemmas/Codec*.lean, the well-formedness
+  predicates in GoDebian/Spec/Codec.lean.
 -/
 import GoDebian.Model.Codec
+import GoDebian.Spec.Codec
+import GoDebian.Lemmas.Res
+import GoDebian.Lemmas.CodecPara
+import GoDebian.Lemmas.CodecConvert
+import GoDebian.Lemmas.CodecMarshal
 
 namespace GoDebian.Props.C09
+open GoDebian GoDebian.Deb822 GoDebian.Codec GoDebian.Spec.Codec
+open GoDebian.Lemmas.Res
+
+/-! ### Stage A — paragraph algebra -/
+
+/-- `Update`: the other's values win, then p's; nothing else appears.  No invariant on
+    either paragraph is needed: `Update` only walks the two `Order` lists. -/
+theorem C09_update_values (p q : Paragraph) (k : Bytes) :
+    (p.update q).get k =
+      if q.order.contains k then q.get k else if p.order.contains k then p.get k else [] :=
+  Lemmas.Codec.get_update p q k
+
+/-- … and a name has a value afterwards exactly when one of the two `Order`s lists it -/
+theorem C09_update_lookup (p q : Paragraph) (k : Bytes) :
+    lookup k (p.update q).values =
+      if k ∈ q.order then some (q.get k) else if k ∈ p.order then some (p.get k) else none :=
+  Lemmas.Codec.lookup_update p q k
+
+/-- `Update`: p's fields in order, then the other's new fields in their order (`p.order`
+    need not be duplicate-free for this) -/
+theorem C09_update_order (p q : Paragraph) (hq : q.order.Nodup) :
+    (p.update q).order = p.order ++ q.order.filter (fun k => !p.order.contains k) := by
+  rw [Lemmas.Codec.order_update, Lemmas.Codec.newKeys_of_nodup hq]
+
+example :
+    let p : Paragraph := ⟨[[65], [66]], [([65], [1]), ([66], [2]), ([90], [9])]⟩
+    let q : Paragraph := ⟨[[67], [66]], [([66], [3]), ([67], [4])]⟩
+    q.order.Nodup ∧
+    p.update q = ⟨[[65], [66], [67]], [([65], [1]), ([66], [3]), ([67], [4])]⟩ := by
+  decide +kernel
+
+/-- `Set` -/
+theorem C09_set (p : Paragraph) (k v : Bytes) :
+    (p.set k v).get k = v ∧ (∀ k', k' ≠ k → (p.set k v).get k' = p.get k') ∧
+    (p.set k v).order = if (lookup k p.values).isSome then p.order else p.order ++ [k] := by
+  refine ⟨by simp [Lemmas.Codec.get_set], fun k' hk' => ?_, Lemmas.Codec.order_set p k v⟩
+  rw [Lemmas.Codec.get_set, if_neg (fun e => hk' e.symm)]
+
+example :
+    let p : Paragraph := ⟨[[65]], [([65], [1])]⟩
+    p.set [66] [2] = ⟨[[65], [66]], [([65], [1]), ([66], [2])]⟩ ∧
+    p.set [65] [3] = ⟨[[65]], [([65], [3])]⟩ := by
+  decide +kernel
+
+/-! ### Stage B — what marshalling writes -/
+
+/-- The statement as first written: the excuse "another field descriptor with the same
+    key" does not cover a schema that lists the *same* descriptor twice. -/
+def C09_omit_required_full : Prop :=
+  ∀ (s : Schema) (r : List Val) (p : Paragraph), convertToParagraph s r = .ok p →
+    (∀ f ∈ s, f.anonymous = false) → ∀ (f : FieldDesc) (v : Val), (f, v) ∈ s.zip r →
+    f.key ≠ [45] → ∀ data : Bytes, marshalValue 16 f.kind f.delim v = .ok data →
+    (f.key ∈ p.order ↔ (f.required = true ∨ data ≠ [])) ∨ (∃ g ∈ s, g ≠ f ∧ g.key = f.key)
+
+/-- the witness: one optional string field, listed twice, empty in its first copy -/
+def dupField : FieldDesc := .mk "A" [65] .str [] [] false false false
+
+theorem C09_omit_required_full_false : ¬ C09_omit_required_full := by
+  intro H
+  have h : convertToParagraph [dupField, dupField] [.str [], .str [120]] =
+      .ok ⟨[[65]], [([65], [120])]⟩ := by decide +kernel
+  rcases H _ _ _ h (by simp [dupField, FieldDesc.anonymous]) dupField (.str []) (by simp)
+      (by decide) [] rfl with h1 | ⟨g, hg, hne, _⟩
+  · have := h1.mp (by simp [dupField, FieldDesc.key])
+    simp [dupField, FieldDesc.required] at this
+  · simp at hg
+    exact hne hg
+
+/-- Optional fields whose rendering is empty are omitted; required fields are always
+    written; this for every non-anonymous, non-skipped field whose key occurs once in the
+    schema — embedded Paragraph or not (an omitted known field does not come back from
+    it). -/
+theorem C09_omit_required_partial (s : Schema) (r : List Val) (p : Paragraph)
+    (h : convertToParagraph s r = .ok p) (f : FieldDesc) (v : Val) (hf : (f, v) ∈ s.zip r)
+    (ha : f.anonymous = false) (hk : f.key ≠ [45]) (data : Bytes)
+    (hd : marshalValue 16 f.kind f.delim v = .ok data) :
+    (f.key ∈ p.order ↔ (f.required = true ∨ data ≠ [])) ∨
+      2 ≤ (s.map FieldDesc.key).count f.key := by
+  by_cases hu : (s.map FieldDesc.key).count f.key ≤ 1
+  · exact Or.inl (Lemmas.Codec.mem_order_convert h hf ha hk hd hu)
+  · exact Or.inr (by omega)
+
+/-- the form first asked for (no anonymous field at all), with the repaired excuse -/
+theorem C09_omit_required (s : Schema) (r : List Val) (p : Paragraph)
+    (h : convertToParagraph s r = .ok p) (hnoembed : ∀ f ∈ s, f.anonymous = false)
+    (f : FieldDesc) (v : Val) (hf : (f, v) ∈ s.zip r) (hk : f.key ≠ [45]) (data : Bytes)
+    (hd : marshalValue 16 f.kind f.delim v = .ok data) :
+    (f.key ∈ p.order ↔ (f.required = true ∨ data ≠ [])) ∨
+      2 ≤ (s.map FieldDesc.key).count f.key :=
+  C09_omit_required_partial s r p h f v hf (hnoembed f (Lemmas.Codec.mem_zip_left hf)) hk data hd
+
+/-- A schema with a required and an optional string, an int, a bool, a skipped and an
+    anonymous non-Paragraph field: the empty optional string is omitted, the empty required
+    one is written, 0 and false are written ("0", "no"). -/
+def sampleSchema : Schema :=
+  [.mk "Name" (Bytes.ofString "Name") .str [] [] true false false,
+   .mk "Note" (Bytes.ofString "Note") .str [] [] false false false,
+   .mk "N" (Bytes.ofString "N") .int [] [] false false false,
+   .mk "Ok" (Bytes.ofString "Ok") .bool [] [] false false false,
+   .mk "Hidden" [45] .str [] [] false false false,
+   .mk "Inner" (Bytes.ofString "Inner") (.nested []) [] [] false false true]
+
+example :
+    convertToParagraph sampleSchema [.str [], .zero, .zero, .bool false, .str [120], .zero] =
+      .ok ⟨[Bytes.ofString "Name", Bytes.ofString "N", Bytes.ofString "Ok"],
+        [(Bytes.ofString "Name", []), (Bytes.ofString "N", [48]),
+         (Bytes.ofString "Ok", Bytes.ofString "no")]⟩ ∧
+    (sampleSchema.map FieldDesc.key).Nodup := by
+  decide +kernel
+
+/-- absence of a required field on input is an error (whatever the other fields are,
+    nested structs included) -/
+theorem C09_required_missing (p : Paragraph) (s : Schema) (old : List Val) (f : FieldDesc)
+    (hf : f ∈ s) (hr : f.required = true) (hk : f.key ≠ [45]) (ha : f.anonymous = false)
+    (hmiss : lookup f.key p.values = none) :
+    ∃ e, decodeStruct p s old = .error e :=
+  Lemmas.Codec.decodeFields_required_missing p f hr hk ha hmiss s _ old hf
+
+example :
+    ∃ e, decodeStruct ⟨[Bytes.ofString "Note"], [(Bytes.ofString "Note", [120])]⟩
+      sampleSchema [] = .error e :=
+  C09_required_missing _ sampleSchema [] (.mk "Name" (Bytes.ofString "Name") .str [] [] true false false)
+    (by simp [sampleSchema]) rfl (by decide +kernel) rfl (by decide +kernel)
+
+/-- marshalling never panics, and never runs out of fuel on schemas whose kinds are nested
+    at most 15 deep (`depthOK`; every Go type in use has depth ≤ 1) -/
+theorem C09_marshal_total (s : Schema) (r : List Val) :
+    convertToParagraph s r ≠ .error .panic ∧
+      (depthOK s = true → convertToParagraph s r ≠ .error .fuel) :=
+  Lemmas.Codec.convert_total s r
+
+example : depthOK sampleSchema = true ∧
+    depthOK [.mk "L" [76] (.slice (.slice .str)) [] [] false false false] = true := by
+  decide +kernel
+
+/-- the depth hypothesis cannot be dropped: 16 nested slices exhaust the fuel -/
+example :
+    let k16 : Kind := (List.range 16).foldl (fun k _ => .slice k) .str
+    let v16 : Val := (List.range 16).foldl (fun v _ => .list [v]) (.str [120])
+    kindDepth k16 = 16 ∧
+    convertToParagraph [.mk "L" [76] k16 [] [] false false false] [v16] = .error .fuel := by
+  decide +kernel
+
 end GoDebian.Props.C09
